@@ -16,6 +16,7 @@ import json
 import struct
 
 import numpy as np
+from scipy.interpolate import PchipInterpolator
 
 from .. import core, comps, plants
 from ..core import enc, dec, close
@@ -109,10 +110,27 @@ def run_mass_case(ctx, case, model=True):
         ctx.fail("predicate", "result-raises-" + core.error_class(e), f"{type(e).__name__}: {e}", where)
         return
     pe = np.atleast_1d(rp.load_ratio) * obj.engine.rated_power          # brake power of the engine
+    reported = {sp.name for sp in (res.total_emission_kg or {})}
+    wanted = {e["species"] for e in case["engine"].get("emissions", [])} | {"NOX"}
+    if reported != wanted:
+        ctx.fail("predicate", "species-set", f"reported {sorted(reported)} for curves {sorted(wanted)}", where)
     for sp, total in (res.total_emission_kg or {}).items():
         ctx.count("species", sp.name + (":tier" if sp == EmissionType.NOX and case["engine"]["nox"] != "CURVE" else ":curve"))
         g = np.atleast_1d(np.asarray(obj.engine.emissions_g_per_kwh(sp, np.atleast_1d(rp.load_ratio)), dtype=float))
         g = np.broadcast_to(g, pe.shape)
+        # the curve value is taken from the case's own points, not from the engine object: a constant for a single
+        # point, the shape-preserving cubic (scipy's PchipInterpolator, a primitive outside the model) through several
+        given = {e["species"]: e["points"] for e in case["engine"].get("emissions", [])}
+        if sp.name in given and not (sp == EmissionType.NOX and case["engine"]["nox"] != "CURVE"):
+            pts = given[sp.name]
+            if len(pts) == 1:
+                g_spec = np.full(pe.shape, float(pts[0][1]))
+            else:
+                g_spec = np.asarray(PchipInterpolator([q[0] for q in pts], [q[1] for q in pts], extrapolate=True)(np.atleast_1d(rp.load_ratio)), dtype=float)
+                g_spec = np.broadcast_to(g_spec, pe.shape)
+            if not all(close(a, b) for a, b in zip(g, g_spec)):
+                ctx.fail("predicate", "specific-emission-not-curve-value", f"{sp.name}: engine gives {g.tolist()} g/kWh, the curve {g_spec.tolist()} at loads {np.atleast_1d(rp.load_ratio).tolist()}", where)
+            g = g_spec
         want = float(np.sum(g * pe * dt) / 3.6e6)
         scale = float(np.sum(np.abs(g) * np.abs(pe) * dt) / 3.6e6)
         if not close(total, want, scale=scale):
